@@ -45,14 +45,27 @@ def tree_hash(repo, variant):
 
 
 def _prune(keep):
+    """Keep the most recently used complete builds; never touch a directory that is still being built by another process
+    (no .complete yet) unless it is stale (older than two hours)."""
     try:
         dirs = [d for d in glob.glob(os.path.join(CACHE_ROOT, "*-*")) if os.path.isdir(d)]
     except OSError:
         return
-    dirs.sort(key=lambda d: os.path.getmtime(os.path.join(d, ".used")) if os.path.exists(os.path.join(d, ".used")) else 0,
-              reverse=True)
-    maxkeep = int(os.environ.get("VERIF_CACHE_KEEP", "4"))
-    for d in dirs[maxkeep:]:
+    now = time.time()
+    complete = []
+    for d in dirs:
+        if os.path.exists(os.path.join(d, ".complete")):
+            u = os.path.join(d, ".used")
+            complete.append((os.path.getmtime(u) if os.path.exists(u) else os.path.getmtime(d), d))
+        else:
+            try:
+                if now - os.path.getmtime(d) > 7200 and os.path.abspath(d) != os.path.abspath(keep):
+                    shutil.rmtree(d, ignore_errors=True)
+            except OSError:
+                pass
+    complete.sort(reverse=True)
+    maxkeep = int(os.environ.get("VERIF_CACHE_KEEP", "6"))
+    for _, d in complete[maxkeep:]:
         if os.path.abspath(d) != os.path.abspath(keep):
             shutil.rmtree(d, ignore_errors=True)
 
